@@ -1,7 +1,6 @@
 from __future__ import annotations
 
 from typing import Callable, Optional
-from urllib.parse import urlunsplit
 
 from ..typing import ASGIFramework, HTTPScope, Scope, WebsocketScope, WWWScope
 
@@ -31,7 +30,7 @@ class HTTPToHTTPSRedirectMiddleware:
             {
                 "type": "http.response.start",
                 "status": 307,
-                "headers": [(b"location", new_url.encode())],
+                "headers": [(b"location", new_url.encode("latin-1"))],
             }
         )
         await send({"type": "http.response.body"})
@@ -48,20 +47,27 @@ class HTTPToHTTPSRedirectMiddleware:
             {
                 "type": "websocket.http.response.start",
                 "status": 307,
-                "headers": [(b"location", new_url.encode())],
+                "headers": [(b"location", new_url.encode("latin-1"))],
             }
         )
         await send({"type": "websocket.http.response.body"})
 
     def _new_url(self, scheme: str, scope: WWWScope) -> str:
-        host = self.host
+        # Put together from the octets received, which need not be
+        # UTF-8 (a query string say), one character for each.
+        host: Optional[bytes] = self.host.encode() if self.host is not None else None
         if host is None:
             for key, value in scope["headers"]:
                 if key == b"host":
-                    host = value.decode("latin-1")
+                    host = value
                     break
         if host is None:
             raise ValueError("Host to redirect to cannot be determined")
 
-        path = scope.get("root_path", "") + scope["raw_path"].decode()
-        return urlunsplit((scheme, host, path, scope["query_string"].decode(), ""))
+        path = scope.get("root_path", "").encode() + scope["raw_path"]
+        if path[:1] != b"/":
+            path = b"/" + path
+        url = scheme.encode() + b"://" + host + path
+        if scope["query_string"] != b"":
+            url += b"?" + scope["query_string"]
+        return url.decode("latin-1")
